@@ -190,6 +190,55 @@ fn spike_sweep(rep: &Report, prop: &str) -> u64 {
     n
 }
 
+/// Structured content at sizes beyond every plausible size threshold (the chroma and luma planes of
+/// QCIF and CIF and one size in between): a flat plane in which one 8x8 block is solid with another
+/// value - at every block position of the two smaller planes, every fifth of the larger ones - and
+/// planes made of solid blocks over three levels (equal neighbours are common, so is a differing
+/// block above or below an equal pair). A shortcut that is switched on by size and decides per
+/// block from the unfiltered input shows here.
+fn large_structured_sweep(rep: &Report, prop: &str, thorough: bool, seed: u64) -> u64 {
+    let mut sizes = vec![(88usize, 72usize), (96, 80), (176, 144), (352, 288)];
+    if thorough {
+        sizes.push((704, 576));
+    }
+    let mut work: Vec<(usize, usize, usize, u8, u8)> = vec![];
+    for &(w, h) in &sizes {
+        let nb = (w / 8) * (h / 8);
+        let step = if nb <= 200 { 1 } else { 5 };
+        for b in (0..nb).step_by(step) {
+            for (base, odd) in [(100u8, 120u8), (100, 104), (0, 255)] {
+                work.push((w, h, b, base, odd));
+            }
+        }
+    }
+    work.par_iter().for_each(|&(w, h, b, base, odd)| {
+        let (bx, by) = (b % (w / 8), b / (w / 8));
+        let mut img = vec![base; w * h];
+        for y in 0..8 {
+            for x in 0..8 {
+                img[(by * 8 + y) * w + bx * 8 + x] = odd;
+            }
+        }
+        for s in [1u8, 3, 7, 12] {
+            check_image(rep, prop, w, h, s, &img, &format!("flat {base} except the solid block ({bx},{by}) = {odd}"), true);
+        }
+    });
+    let mut n = work.len() as u64 * 4;
+    let blocky: Vec<(usize, usize, u64)> = sizes.iter().flat_map(|&(w, h)| (0..6u64).map(move |k| (w, h, k))).collect();
+    blocky.par_iter().for_each(|&(w, h, k)| {
+        let mut rng = Lcg::new(seed ^ (w as u64 * 31 + h as u64 * 17 + k));
+        let levels = [[90u8, 100, 112], [0, 128, 255], [100, 101, 103]][(k % 3) as usize];
+        let bw = w.div_ceil(8);
+        let vals: Vec<u8> = (0..bw * h.div_ceil(8)).map(|_| levels[rng.below(3) as usize]).collect();
+        let img: Vec<u8> = (0..w * h).map(|i| vals[(i / w / 8) * bw + (i % w) / 8]).collect();
+        for s in [1u8, 4, 9, 12] {
+            check_image(rep, prop, w, h, s, &img, &format!("solid blocks over the levels {levels:?}"), true);
+        }
+    });
+    n += blocky.len() as u64 * 4;
+    n
+}
+
 const GEOM_NAMES: [&str; 6] = ["noise", "block-checker", "ramp-up", "ramp-down", "extremes", "small-steps"];
 
 fn check_image(rep: &Report, prop: &str, w: usize, h: usize, s: u8, data: &[u8], label: &str, compare_model: bool) {
@@ -380,7 +429,7 @@ pub fn run_c09(tier: Tier) -> Report {
         rep.extra("self_related_images", json!(n));
     }
     {
-        let nl = localized_sweep(&rep, "C09", seed) + spike_sweep(&rep, "C09");
+        let nl = localized_sweep(&rep, "C09", seed) + spike_sweep(&rep, "C09") + large_structured_sweep(&rep, "C09", tier.thorough(), seed);
         rep.add_transitions(nl);
         rep.add_states(nl);
         rep.extra("localised_detail_images", json!(nl));
@@ -436,7 +485,7 @@ pub fn run_c09(tier: Tier) -> Report {
     }
     rep.set_rule(&format!(
         "kernel: (A,B,C,D) patterns x strengths 1..12 placed in images that isolate one pass ({} units of 65536 patterns; quick = all 2^32 for one strength (5 + VERIF_SEED mod 12) in the vector slot of the horizontal pass, 32x32 (A,B) lattice x all (C,D) for every strength, pass and slot kind (packed vector lanes, scalar remainder, alone in an otherwise flat vector group); thorough = all 2^32 x 12 x both passes x vector and scalar slots, and all 2^32 x 12 alone in an otherwise flat vector group of the horizontal pass); \
-         geometry: all widths 1..={maxw} x heights 0..={maxh} x 12 strengths x 6 contents {:?}; flat images with detail confined to every span of columns / rows (43 x 21 and 21 x 43, so the scalar tails are spans of their own); flat images with one differing sample at every position; the input slice at every byte offset 0..15 of its buffer; images in which every second 8-column group / 8-row band holds what the filter (either pass, both, or none) makes of its neighbour, for every strength; all sequences of three calls over 30 (shape, strength, content) letters on one thread (purity); non-trivial = image with at least one filterable edge",
+         geometry: all widths 1..={maxw} x heights 0..={maxh} x 12 strengths x 6 contents {:?}; flat images with detail confined to every span of columns / rows (43 x 21 and 21 x 43, so the scalar tails are spans of their own); flat images with one differing sample at every position; QCIF / CIF-sized planes that are flat except for one solid block (every block position) or made of solid blocks over three levels; the input slice at every byte offset 0..15 of its buffer; images in which every second 8-column group / 8-row band holds what the filter (either pass, both, or none) makes of its neighbour, for every strength; all sequences of three calls over 30 (shape, strength, content) letters on one thread (purity); non-trivial = image with at least one filterable edge",
         units.len(), GEOM_NAMES
     ));
     rep.sample(json!({"kernel": {"A": 10, "B": 10, "C": 9, "D": 10, "strength": 5, "expected": annex_j(10, 10, 9, 10, 5)}}));
